@@ -164,7 +164,9 @@ def check_write(prop, tier, seed):
                ("2 writers, 2 keys", dict(BASE_CONSTS, Keys={1, 2}, InitStates={"none", "live", "deleted"}, ExpSet={0, 1, 4, 50})),
                ("3 writers, 1 key", dict(BASE_CONSTS, Writers={"c1", "c2", "c3"}, InitStates={"live", "deleted", "compacted"}, ExpSet={0, 1, 4}))]
         if tier == "thorough":
-            mcs.append(("2 writers x 2 ops, 1 key", dict(BASE_CONSTS, OpsPer=2, InitStates={"none", "live", "deleted"}, ExpSet={0, 1, 4, 5, 50})))
+            # (with InitStates {none, live, deleted} and ExpSet {0,1,4,5,50} this has > 40 M states and does not finish in an hour;
+            #  the bound below was measured: 11.4 M distinct states, 4 min on 8 workers)
+            mcs.append(("2 writers x 2 ops, 1 key", dict(BASE_CONSTS, OpsPer=2, InitStates={"none", "live"}, ExpSet={0, 1, 4})))
             mcs.append(("tikv-style conflicts, 2 writers", dict(BASE_CONSTS, ConflictCarriesValue=False)))
         for title, consts in mcs:
             r = run_mc(work, consts, MC_INV[prop])
@@ -203,7 +205,7 @@ def check_write(prop, tier, seed):
             plans.append(("memkv", dict(BASE_CONSTS), "exhaustive", 0, 16, []))
         alltraces = []
         for engine, consts, mode, num, shards, flags in plans:
-            behs, g = gen_behaviours(work, consts, mode, seed + len(alltraces), num=num, timeout=3000)
+            behs, g = gen_behaviours(work, consts, mode, seed + len(alltraces), num=num, timeout=3000, limit=200000 if mode == "exhaustive" else None)
             reports, traces = replay(work, binp, behs, engine, shards, flags)
             rep = merge_reports(reports)
             cov["evaluations"] += rep.get("behaviours", 0)
@@ -223,15 +225,22 @@ def check_write(prop, tier, seed):
             # "reads never overtake a write" / "a header never stays behind its data": reads in flight as processes of the model
             alltraces += reader_part(work, binp, cov, tier == "quick", seed)
         # ---- 3. free-running concurrent executions of the real backend, recorded
-        fr = free_run(work, binp, seed, tier)
-        alltraces += fr["traces"]
-        cov["free_running"] = fr["summary"]
+        fr_failed = None
+        try:
+            fr = free_run(work, binp, seed, tier)
+            alltraces += fr["traces"]
+            cov["free_running"] = fr["summary"]
+        except Undecided as ex:
+            # the verdict is T's; only if T accepts every recorded trace does a dead driver make the run undecided
+            fr_failed = ex
         # ---- 4. trace validation: the only source of verdicts
         ntr, v = validate_all(work, alltraces, T_MON[prop])
         cov["traces_validated_against_impl"] = ntr
         if v:
             violations += 1
             report_violation(prop, seed, v)
+        elif fr_failed:
+            raise fr_failed
         elif prop == "C01":
             v2 = race_part(work, binp, cov, tier == "quick", seed)
             if v2:
